@@ -236,8 +236,28 @@ func (ms *ModSet) inject(rng *rand.Rand) {
 					}
 				}
 			}
-			ms.Files[f].Types = append(ms.Files[f].Types, Type{Name: c[0], Extend: true, Rels: []Rel{{Name: c[1], Rewrite: CU("zz")}}})
+			clash := []Rel{{Name: c[1], Rewrite: CU("zz")}}
 			ms.Conflicts = append(ms.Conflicts, Conflict{Kind: "rel-clash", Alt: -1, File: f, Key: fmt.Sprintf("rel:%s:%s#%d", c[0], c[1], occ), What: c[0] + "#" + c[1]})
+			// several clashes in the one extension block (their errors must come out in a fixed order)
+			if rng.Intn(2) == 0 {
+				for _, o := range cands {
+					if o[0] == c[0] && o[1] != c[1] && len(clash) < 4 && occ == 0 && ms.fileOfType(c[0]) != f {
+						dup := false
+						for _, r := range clash {
+							if r.Name == o[1] {
+								dup = true
+							}
+						}
+						if dup {
+							continue
+						}
+						clash = append(clash, Rel{Name: o[1], Rewrite: CU("zz")})
+						ms.Conflicts = append(ms.Conflicts, Conflict{Kind: "rel-clash", Alt: -1, File: f, Key: fmt.Sprintf("rel:%s:%s#%d", c[0], o[1], 0), What: c[0] + "#" + o[1]})
+					}
+				}
+				rng.Shuffle(len(clash), func(i, j int) { clash[i], clash[j] = clash[j], clash[i] })
+			}
+			ms.Files[f].Types = append(ms.Files[f].Types, Type{Name: c[0], Extend: true, Rels: clash})
 			return
 		case 6: // relation clash between two extensions of one type (both add the same new relation)
 			type er struct {
